@@ -132,15 +132,16 @@ CLAIMED = {
              "absent/NaN in both) for create_transformer3w_from_parameters / create_transformers3w_from_parameters (all parameters "
              "incl. the tap_pos default), create_transformer3w / create_transformers3w, create_transformer / create_transformers and "
              "create_line / create_lines (all values taken from a standard type with symbolic values and parameter presence), and for "
-             "the load, gen, storage, shunt, ward and impedance pairs with the argument lists read from the real signatures on every run "
+             "the bus, load, gen, storage, shunt, ward and impedance pairs with the argument lists read from the real signatures on every run "
              "(every numeric / flag parameter symbolic, NaN-able ones with a symbolic NaN flag; three explorations: all given, "
-             "None-default parameters left out, required only - so derived values and the defaults of both signatures are compared). The "
+             "None-default parameters left out, required only - so derived values and the defaults of both signatures are compared; for buses a NaN voltage limit and the "
+             "documented default limit count as the same value). The "
              "other create pairs and the rejection behaviour are a bounded stand-in (native runs on fixed vectors), labelled bounded. "
              "create_transformers dropping the tap changer and shift of the type is the recorded known finding.",
         note="Assumed: _set_entries / _set_multiple_entries write the dict they get; the optional-column helpers write a value iff it is "
              "not NaN/None; a NaN argument of a single call is numpy's nan object. String-valued parameters keep their defaults in both calls; "
              "argument values the single call refuses with a UserWarning are outside the compared domain. Not decided deductively: "
-             "bus/sgen/switch/cost pairs, create_line(s)_from_parameters, create_transformer(s)_from_parameters, duplicate-index and "
+             "sgen/switch/cost pairs, create_line(s)_from_parameters, create_transformer(s)_from_parameters, duplicate-index and "
              "missing-bus checks (bounded stand-in only)."),
     "C32": dict(
         text="Proof on the real class text (Characteristic, SplineCharacteristic with interp1d and Pchip, LogSplineCharacteristic, "
